@@ -1,9 +1,18 @@
 #!/bin/sh
 # Build the verification engines offline from files on disk (run once after a fresh restore).
+# Every check rebuilds what it needs anyway (cargo fingerprints /repo's working tree); this only
+# warms the shared target directory so that the first check of each kind is not slow.
 set -e
 cd "$(dirname "$0")"
 export CARGO_NET_OFFLINE=true
 export CARGO_TARGET_DIR="$(pwd)/target"
 mkdir -p target/run evidence replays
-(cd engines && cargo build --offline --release -p textmon)
+(cd engines && cargo build --offline --release -p textmon -p vgen -p rtmon)
+./target/release/vgen --cmd emit --shards 16 --tier quick --seed 1 --out target/run/setup-emit.json
+(cd engines/harness && cargo build --offline)
+BINS=$(python3 -c "
+import json
+d=json.load(open('target/run/setup-emit.json'))
+print(' '.join('--bin '+s['bin'] for s in d['shards'] if s['family'] not in ('kinds','slice') and s['grammars']))")
+(cd engines/harness && cargo build --offline --release $BINS)
 echo "setup done"
